@@ -25,30 +25,63 @@ def startsWithBytes (p l : List Nat) : Bool := p.isPrefixOf l
 /-- encodings whose `output_encoding()` is UTF-8 (encoding_rs / WHATWG "get an encoder"). -/
 def utf8OutputEncodings : List String := ["UTF-16LE", "UTF-16BE", "replacement"]
 
-/-- Japanese legacy encodings whose encoder folds several code points onto one byte sequence. -/
-def jisEncodings : List String := ["Shift_JIS", "EUC-JP", "ISO-2022-JP"]
+/-- code points of well-formed UTF-8 (classification only; ill-formed tails are dropped). -/
+partial def codepoints : List Nat → List Nat
+  | [] => []
+  | b :: rest =>
+    if b < 0x80 then b :: codepoints rest
+    else if b < 0xE0 then
+      match rest with
+      | c :: r => (b % 32 * 64 + c % 64) :: codepoints r
+      | _ => []
+    else if b < 0xF0 then
+      match rest with
+      | c :: d :: r => (b % 16 * 4096 + c % 64 * 64 + d % 64) :: codepoints r
+      | _ => []
+    else
+      match rest with
+      | c :: d :: e :: r => (b % 8 * 262144 + c % 64 * 4096 + d % 64 * 64 + e % 64) :: codepoints r
+      | _ => []
 
-/-- does the UTF-8 text contain U+2212 (all three), U+00A5 / U+203E (Shift_JIS, EUC-JP,
-    ISO-2022-JP fold them onto `\` and `~`) or a half-width katakana U+FF61..U+FF9F (ISO-2022-JP
-    folds them onto full-width)? -/
-def hasJisFolded : List Nat → Bool
-  | [] => false
-  | 0xE2 :: 0x88 :: 0x92 :: _ => true
-  | 0xC2 :: 0xA5 :: _ => true
-  | 0xE2 :: 0x80 :: 0xBE :: _ => true
-  | 0xEF :: 0xBD :: c :: rest => (0xA1 ≤ c && c ≤ 0xBF) || hasJisFolded (c :: rest)
-  | 0xEF :: 0xBE :: c :: rest => (0x80 ≤ c && c ≤ 0x9F) || hasJisFolded (c :: rest)
-  | _ :: rest => hasJisFolded rest
+/-- code points the WHATWG encoders of the Japanese legacy encodings fold onto another character:
+    U+2212 → U+FF0D (all three); U+00A5 → `\`, U+203E → `~` (Shift_JIS, EUC-JP);
+    half-width katakana U+FF61..U+FF9F → full-width (ISO-2022-JP). -/
+def jisFolded (name : String) (cp : Nat) : Bool :=
+  if name == "ISO-2022-JP" then cp == 0x2212 || (0xFF61 ≤ cp && cp ≤ 0xFF9F)
+  else if name == "Shift_JIS" || name == "EUC-JP" then cp == 0x2212 || cp == 0xA5 || cp == 0x203E
+  else false
+
+/-- private-use code points that the GBK / gb18030 encoder (gb18030-2022 tables) still encodes
+    but whose bytes now decode to the newly assigned non-PUA characters. -/
+def gbPua : List Nat :=
+  [0xE78D, 0xE78E, 0xE78F, 0xE790, 0xE791, 0xE792, 0xE793, 0xE794, 0xE795, 0xE796,
+   0xE81E, 0xE826, 0xE82B, 0xE82C, 0xE832, 0xE843, 0xE854, 0xE864]
+
+def gbFolded (name : String) (cp : Nat) : Bool :=
+  (name == "GBK" || name == "gb18030") && gbPua.contains cp
 
 def isBom (e : List Nat) : Bool :=
   startsWithBytes [0xEF, 0xBB, 0xBF] e || startsWithBytes [0xFF, 0xFE] e || startsWithBytes [0xFE, 0xFF] e
 
 /-- Classification of a charset round-trip failure (all inside encoding_rs, outside the model). -/
 def charsetClass (name : String) (text enc : List Nat) : String :=
+  let cps := codepoints text
   if utf8OutputEncodings.contains name then "charset:D_output_encoding_is_utf8"
   else if isBom enc then "charset:D_bom_sniffed"
-  else if jisEncodings.contains name && hasJisFolded text then "charset:D_jis_folding"
+  else if cps.any (jisFolded name) then "charset:D_jis_folding"
+  else if cps.any (gbFolded name) then "charset:D_gb18030_pua"
   else "charset:-"
+
+def hexList (s : String) : Option (List Nat) :=
+  if s == "-" then some [] else (s.splitOn ",").mapM fun t => natOfHexChars t.toList
+
+/-- oracle of an exhaustive sweep: every failing scalar must be in a listed class. -/
+def sweepOracle (name : String) (bad ctx : List Nat) : String :=
+  if !ctx.isEmpty then "fails charset:context-dependent"
+  else if bad.isEmpty then "holds"
+  else if bad.all (jisFolded name) then "fails charset:D_jis_folding"
+  else if bad.all (gbFolded name) then "fails charset:D_gb18030_pua"
+  else "fails charset:-"
 
 /-- Spec oracle on the implementation's observations of one `o.c22` case. -/
 def oracle (codec opts : String) (b : Bytes) (enc : Res Bytes) (dec : Option (Res Bytes))
@@ -146,6 +179,10 @@ def handle (op : String) (args : List String) : Option String :=
     pure (if outcome == "same" then "holds"
           else if C22.D_lz4_size_is_magic n then "fails lz4:D_size_is_frame_magic"
           else "fails lz4:-")
+  | "o.c22.sweep", [_label, _lo, _hi, "|", name, _tested, bad, ctx] => do
+    let bad ← hexList bad
+    let ctx ← hexList ctx
+    pure (sweepOracle name bad ctx)
   | _, _ => none
 
 end Driver.C22
